@@ -228,6 +228,36 @@ r = [c1(), c1({c}), c2(), c1(by=2), c2()]
     )
     progs.append(
         f"""
+mode = "global-{a}"
+budget = {c}
+def make_reader():
+    def reader():
+        return T(1, mode)
+    return reader
+def make_spender():
+    def spender(n):
+        global budget
+        budget -= n
+        return T(2, budget)
+    return spender
+def caller():
+    mode = T(3, "caller-local")
+    budget = {a + 100}
+    def helper():
+        return (mode, budget)
+    rd = make_reader()
+    sp = make_spender()
+    out = [rd(), sp({b}), helper()]
+    mode = "caller-local-2"
+    out.append(rd())
+    out.append(helper())
+    return out
+r = caller()
+r2 = (mode, budget)
+"""
+    )
+    progs.append(
+        f"""
 fs = []
 for i in range({c}):
     def g(j=i):
